@@ -241,9 +241,21 @@ def judge_lock(ctx, rng, j):
     pairs.append(('small-order-key', S, rng.choice(SMALL_ORDER)))
     pairs.append(('root-as-key', S, root))
     pairs.append(('random-pair', O('TRUE'), sigmsg.pubkey(rbytes(rng, 32))))
+    # a 32-byte key that is not a curve point at all / not a canonical one
+    for _ in range(40):
+        npk = rbytes(rng, 32)
+        if not E.is_valid_point(npk):
+            pairs.append(('non-point-key', S, npk))
+            break
+    pairs.append(('key-all-ff', S, b'\xff' * 32))
+    # ... and every such pair once more on top of a parked `true`: a pair
+    # that does not bind must leave false, not vanish
+    pairs += [(n_ + '+true-underneath', s_, k_) for n_, s_, k_ in list(pairs)]
     for name, s_, k_ in pairs:
         ctx.evaluated()
         w = isa.push(s_) + isa.push(k_)
+        if name.endswith('+true-underneath'):
+            w = O('TRUE') + w
         model_root = taproot.root(k_, s_)
         binds = model_root == root
         got = run_auth([w, lock], fields)
